@@ -80,8 +80,8 @@ def gen(rng, ctx):
         # nets named like the parsers' constant nodes
         cands = nl["wires"] + nl["outputs"] + nl["inputs"]
         m = {}
-        for w in rng.sample(cands, min(len(cands), rng.randint(1, 2))):
-            nn = rng.choice(["tie0", "tie1", "tie_0", "tie_1", "tie0_0"])
+        for w in rng.sample(cands, min(len(cands), rng.randint(1, 3))):
+            nn = rng.choice(["tie0", "tie1", "tie_0", "tie_1", "tie0_0", "tie0_1", "tie0_2", "tie1_1", "tie1_3", "n_input", "x_output", "hotwire", "reg_input", "in_output"])
             if nn not in m.values() and nn not in cands:
                 m[w] = nn
         nl = N.rename_nets(nl, m)
